@@ -80,7 +80,13 @@ def _case(draw, tier):
         commits[n - 1] = [n - 3]
         commits.append([n - 2, n - 1])
         head = len(commits) - 1
-        exps[0]["rows"] = [[n - 2, 150], [n - 1, 151]] + [r for r in exps[0]["rows"] if r[0] is None][:1]
+        # 2-4 versions spread over the two tied commits, with interleaved timestamps (run at A, run at B, run --again at A,
+        # then merge): the newest of ALL versions on the tied commits is the documented choice
+        k2 = draw(st.sampled_from([2, 3, 3, 4]))
+        sides = [n - 2, n - 1] + [draw(st.sampled_from([n - 2, n - 1])) for _ in range(k2 - 2)]
+        sides = list(draw(st.permutations(sides)))
+        tss = list(draw(st.permutations([150, 151, 152, 153])))[:k2]
+        exps[0]["rows"] = [[sd, ts] for sd, ts in zip(sides, tss)] + [r for r in exps[0]["rows"] if r[0] is None][:1]
     flag = draw(st.sampled_from(["none"] * 4 + ["again", "this_commit", "at_least", "at_least", "at_least", "bad_combo"]))
     case = {"mode": mode, "commits": commits, "head": head, "detached": draw(st.booleans()), "exps": exps, "flag": flag}
     if flag == "at_least":
